@@ -340,6 +340,7 @@ def prop_C12(run):
     n = lim2_obligations(run, only=lambda key, f: "symbol_format" in key or "format_addrspan" in key)
     rules_mpt.symbol_listing(run)
     rules_mpt.mesen_header_rule(run)
+    rules_mpt.mesen_units_scaled(run)
     rules_mpt.symbol_bank_rule(run)
     rules_mpt.listing_reads_within_span(run)
     rules_mpt.listing_excerpt_one_line(run)
